@@ -348,7 +348,41 @@ def run_job(job, workdir):
     else:
         cmd += ["--trace"]
     props_listed = None
-    if job.stop_on_fail and not job.cover:
+    if job.cover_by_assert:
+        lc = [c for c in cmd if c != "--trace"] + ["--show-properties"]
+        rc0, o0, e0, _ = run(lc, cwd=d, timeout=300, mem_gb=job.mem_gb)
+        names = []
+        try:
+            for ent in json.loads(o0):
+                for pr in ent.get("properties", []) if isinstance(ent, dict) else []:
+                    if pr.get("description", "").startswith("covergoal"):
+                        names.append(pr["name"])
+        except Exception:
+            names = []
+        if not names:
+            out["error"] = "no cover goals found: " + (e0 or o0)[-300:]
+            out["secs"] = time.time() - t0
+            return out
+        for nm in names:
+            cmd += ["--property", nm]
+    elif job.kind == "canary":
+        # only the reachability canary is checked (fast, and independent of whatever else fails on a modified tree)
+        lc = [c for c in cmd if c != "--trace"] + ["--show-properties"]
+        rc0, o0, e0, _ = run(lc, cwd=d, timeout=300, mem_gb=job.mem_gb)
+        cname = None
+        try:
+            for ent in json.loads(o0):
+                for pr in ent.get("properties", []) if isinstance(ent, dict) else []:
+                    if "canary" in pr.get("description", ""):
+                        cname = pr["name"]
+        except Exception:
+            cname = None
+        if cname is None:
+            out["error"] = "canary obligation not found: " + (e0 or o0)[-300:]
+            out["secs"] = time.time() - t0
+            return out
+        cmd += ["--property", cname]
+    elif job.stop_on_fail and not job.cover:
         # obligations are enumerated separately (the verdict run reports only a failing one)
         lc = [c for c in cmd if c != "--trace"] + ["--show-properties"]
         rc0, o0, e0, _ = run(lc, cwd=d, timeout=300, mem_gb=job.mem_gb)
